@@ -212,7 +212,7 @@ Qed.
 Inductive crel : rmsg -> amsg -> Prop :=
 | cr_w : crel RWatch AWatch
 | cr_r : crel RUnwatch AUnwatch
-| cr_b s T : stab s T -> crel (RBind s) (ABind T).
+| cr_b s T : stab s T -> Twf T -> crel (RBind s) (ABind T).
 
 Record Rel (w : world) (al : astate) : Prop := {
   r_q : learnQ (wn w) = a_queue al;
@@ -290,7 +290,7 @@ Proof.
     exfalso. apply CS; eauto.
   - destruct OS as [s' [-> Es]].
     destruct (at_ctl (a, c) T) as [i |] eqn:F.
-    + constructor; [| constructor]. constructor. eapply NT_stab; eassumption.
+    + constructor; [| constructor]. constructor; [eapply NT_stab; eassumption | apply N'].
     + exfalso. apply CS in K. destruct K; discriminate.
 Qed.
 
@@ -357,7 +357,8 @@ Section Sim.
                                (map (fun _ => AUnwatch) (a_queue al) ++ [ABind []])).
       { rewrite Rq. apply Forall2_app.
         - clear. induction (a_queue al); cbn; constructor; [constructor | assumption].
-        - repeat constructor. }
+        - constructor; [| constructor]. constructor; [intro id; reflexivity |].
+          constructor; [constructor | constructor | intros i k []]. }
       split.
       + rewrite erase_out. rewrite (obs_out_eq _ _ CR).
         clear. induction (_ ++ _) as [| m l IH]; [reflexivity |]. cbn. rewrite <- IH. destruct m; reflexivity.
@@ -483,8 +484,8 @@ Section Sim.
           - destruct (at_ctl (a2, c2) (a_tab al)); reflexivity. }
         constructor; cbn [wn wr chN chR a_send a_queue a_tab a_chN a_chR a_rtab a_pend a_watch]; try assumption;
           try reflexivity.
-        apply Forall2_app; [assumption |]. constructor; [| constructor]. constructor.
-          eapply NT_stab; eassumption.
+        apply Forall2_app; [assumption |]. constructor; [| constructor].
+        constructor; [eapply NT_stab; eassumption | apply N'].
     - (* deliver to RT *)
       destruct (chR w) as [| m rest] eqn:ER; destruct (a_chR al) as [| am arest] eqn:EA;
         try (inversion Rcr; fail).
@@ -493,7 +494,7 @@ Section Sim.
       + inversion Rcr as [| ? ? ? ? Hm Hrest]; subst.
         destruct (rt_deliver (wr w) m) as [r' |] eqn:D; [| discriminate].
         inversion St; subst w' o; clear St.
-        destruct Hm as [| | s T Hst]; cbn [rt_deliver] in D; cbn [fst snd map].
+        destruct Hm as [| | s T Hst HTw]; cbn [rt_deliver] in D; cbn [fst snd map].
         * inversion D; subst r'. split; [reflexivity |].
           constructor; cbn [wn wr chN chR rstorage pending watch a_queue a_tab a_chN a_chR a_rtab a_pend a_watch];
             try assumption. try rewrite Rw; reflexivity.
